@@ -156,6 +156,10 @@ def compare_with_model(msnap, vsnap, verr, model, final):
     """first component on which the machine (vsnap) differs from the model (msnap), or None"""
     skip_stack = final and "after-error:stack" in model.unspec and msnap["error"] != "none"
     skip_pos = final and "after-error:pos" in model.unspec and msnap["error"] != "none"
+    if vsnap.get("inputs_modified"):
+        # the result is a function of the input bytes: a machine that scribbles on its input (e.g. an in-place byte swap that is
+        # not undone) changes what a later read of the same bytes sees.  Added after the seeded change C19-b was missed.
+        return "inputs-modified", 0, vsnap["inputs_modified"]
     if msnap["error"] != verr:
         return "error", msnap["error"], verr
     if msnap["ready"] != vsnap["ready"] or msnap["done"] != vsnap["done"]:
